@@ -78,6 +78,21 @@ CLAIMED = {
    text="K in {2,4,16,64} goroutines x GOMAXPROCS in {2,4,16}, private writer/reader instances and inputs, operations from all symbologies (writers, readers in pure and detector paths, multi-format and multi readers, Aztec, RSS-14, Reed-Solomon on shared field objects, grid sampler, binarisers, ECI lookups); race build: every detector report containing a gozxing frame is a violation (deduplicated by innermost library function pair), a deliberate harness race must be reported (canary) or the run is inconclusive; verif build: same workload, deep hash of every package-level table before == after; both: results equal the sequential results. Claims absence of races only among interleavings observed.",
    note="Trusted base: Go race detector (halt_on_error=0, reports parsed from log files), harness/conc. The race build carries no verif tag so the monitors add no synchronisation to the code under test.",
    design="5/C18"),
+ "C03": dict(
+   technique="runtime round-trip monitor: library 1-D writers -> library readers, with canonical contents, check digits and module patterns from an independent reference (onedref); refusal list for unacceptable contents",
+   text="Nine symbologies x seeded contents from each accepted set (every ASCII character alone/embedded/doubled, Code 128 digit runs of every parity and each forced code set, all 64 Codabar guard pairs, ITF lengths 6..14 and 16..80), widths 0/natural/+k/x2..x6, heights 0..80, margin hints; matching reader and multi-format reader with and without POSSIBLE_FORMATS; 4956 rejection cases; thorough tier: all 2*10^6 UPC-E numbers and all 10^7 EAN-8 payloads at height 1 (quick: 100k samples each).",
+   note="Trusted base: harness/ref/onedref. Don't-cares: UPC-A as EAN-13 '0'+n without hints, plain vs extended Code 39 by content, single-character Codabar. Open known finding: UPC-E default quiet zone unreadable (sweep uses margin 14).",
+   design="5/C03"),
+ "C10": dict(
+   technique="runtime fault enumeration: independently rendered symbols carrying stale check characters (onedref patterns) fed to the library readers; writers' check characters compared with independent mod-10/103/47; exhaustive UPC-E expansion comparison via a tag-guarded export",
+   text="Writers: bars must equal the reference pattern with the independent check digit, all nine wrong digits refused (exhaustive for UPC-E and EAN-8 in thorough). Readers: control + every single-digit substitution of sampled EAN-13/UPC-A/EAN-8/UPC-E numbers, sweeps over every EAN-8 string and every UPC-E symbol (thorough), every Code 128 / Code 93 symbol-character substitution; UPC-E expansion for all 2*10^6 numbers and expand(suppress(n)); EAN-2 (100 x 4 parities) and EAN-5 (values x 32 patterns) add-ons.",
+   note="Trusted base: onedref patterns and checksums. Two open known findings (reversed UPC-E misread of stale symbols at >=2 px/module, multi-format reader reading stale 12/13-digit symbols as EAN-8), each with a rate cap over measured denominators.",
+   design="5/C10"),
+ "C11": dict(
+   technique="runtime reference-model monitor: symbols built by an independent token-level ISO 24778 encoder (azref) decoded by the library at high-level, matrix and image level; codeword damage injected by the reference",
+   text="All 36 sizes: random token walks over the five tables, latches, shifts, punct pairs and binary shifts (short and long) -> HighLevelDecode; matrix level clean and with 1..floor(ec/2) damaged codewords (first/last/random positions, all-0/all-1 values); image level at 2..5 px/module x 4 rotations with a 4-module quiet zone, damaged symbols at >= 3 px. Misreads are violations at every scale.",
+   note="Trusted base: harness/ref/azref (+ ref/gf, ref/rs), anchored in its own tests and the start-up self-test. Open known finding: compact symbols at exactly 2 px/module ~1.3 % NotFound (rate cap 4 % of compact 2-px reads).",
+   design="5/C11"),
 }
 
 PENDING_REASON = "monitor not yet built in this round (designed in DESIGN.md section 5; build order in section 8) - not claimed until its check runs clean"
